@@ -158,7 +158,8 @@ def mapper(ctx):
                     if cc is not None and q.callee_name(cc) == 'std::iter::Iterator::next' and nb.cfg.loop_of(bi) is L:
                         it = q.unwrap_into_iter(q.arg_terms(cc)[0])
                         item = ('next', q.arg_terms(cc)[0])
-                        whole = it[0] == 'call' and it[1].endswith('HashMap::iter') and is_param_path(it[2][0], 1, ['entries'])
+                        whole = (it[0] == 'call' and it[1].endswith('HashMap::iter') and is_param_path(it[2][0], 1, ['entries'])) or \
+                            is_param_path(it, 1, ['entries'])          # `for .. in &palette.entries`
                 whole = whole and all(nb.cfg.dominates(c.bb, x) for x, _ in L['back_edges']) and \
                     all(k in ('exhausted', 'err', 'unreachable') for _, _, k in q.loop_exit_kinds(nb, L))
 
